@@ -20,7 +20,7 @@ class C02(Prop):
     lean_exe = "c02_driver"
     harness = "h_sqio.c"
     MSA_THEOREMS = ["msa_open_total", "msa_fetch_total", "msa_read_total", "msa_readSequence_total", "msa_readInfo_total", "msa_mode_ok",
-                    "msa_fwd_window_coords", "msa_rev_window_coords", "msa_rev_window_old_illformed"]
+                    "msa_fwd_window_coords", "msa_rev_window_coords", "msa_rev_window_old_illformed", "msa_readWindow_total"]
     theorems = ["EaselModel.Props.C02." + t for t in S.C02_THEOREMS + MSA_THEOREMS]
     claimed = True
     diverge_is_violation = True
@@ -93,6 +93,59 @@ class C02(Prop):
             cs.append({"name": "raw%d" % k, "ops": ops, "sticky": 1})
         return cs
 
+    def alloc_case(self, rng, k):
+        """FASTA records whose name / description / residue counts sit on the reallocation sizes of an ESL_SQ (32, 64, 128, 256, 512,
+        1024 and their neighbours: esl_sq.c eslSQ_NAMECHUNK / DESCCHUNK / SEQCHUNK and the doubling in header_fasta / esl_sq_GrowTo), and
+        whose header line is exactly 127 / 128 / 129 or 4095 / 4096 / 4097 bytes long, read with a block size B at / next to that length, in
+        one file so that the allocations made for one record are the ones the next record meets after esl_sq_Reuse"""
+        NAME = [1, 31, 32, 33, 63, 64, 65, 127, 128, 129, 255, 256, 257]
+        DESC = [0, 1, 126, 127, 128, 129, 130, 255, 256, 257, 511, 512, 513]
+        SEQ = [0, 1, 254, 255, 256, 257, 258, 510, 511, 512, 513, 514, 1022, 1023, 1024, 1025, 1026]
+        HDR = [127, 128, 129, 4095, 4096, 4097]
+        kind = rng.choice(["dna", "amino"])
+        res = "ACGT" if kind == "dna" else "ACDEFGHIKLMNPQRSTVWY"
+        nl = rng.choice(["\n", "\n", "\r\n"])
+        out, hdrlens, seqlens = [], [], []
+        for j in range(rng.choice([2, 3, 5])):
+            if rng.random() < 0.5:
+                total = rng.choice(HDR)                       # length of the header line including '>' and the line end
+                nlen = rng.choice([1, 5, 31, 32, 33])
+                dlen = total - 1 - nlen - 1 - len(nl)
+                if dlen < 0:
+                    nlen, dlen = total - 1 - len(nl), -1
+            else:
+                nlen, dlen = rng.choice(NAME), rng.choice(DESC) - (0 if rng.random() < 0.5 else 0)
+            name = "".join(rng.choice("abcdefghijklmnopqrstuvwxyz0123456789_") for _ in range(max(1, nlen)))
+            hdr = ">" + name + ((" " + "".join(rng.choice("abcdefgh ijk") for _ in range(dlen))) if dlen >= 0 and (dlen > 0 or rng.random() < 0.5) else "") + nl
+            L = rng.choice(SEQ)
+            w = rng.choice([60, 80, 255, 256, 257, max(1, L)])
+            seq = "".join(rng.choice(res) for _ in range(L))
+            body = "".join(seq[i:i + w] + nl for i in range(0, L, w))
+            out.append(hdr + body)
+            hdrlens.append(len(hdr)); seqlens.append(L)
+        data = "".join(out).encode()
+        ops = ["file ext=dat hex=" + hx(data)]
+        for s_ in range(rng.choice([1, 2, 3])):
+            hl = rng.choice(hdrlens)
+            B = rng.choice([hl - 1, hl, hl + 1, 127, 128, 129, 4095, 4096, 4097, 255, 256, 257, 31, 32, 33])
+            abc = rng.choice(["text", kind])
+            ops.append("open fmt=%s abc=%s B=%d" % (rng.choice(["fasta", "fasta", "unknown"]), abc, max(1, B)))
+            call = rng.choice(["read", "readinfo", "readseq", "mixed", "readwin", "readblock"])
+            n = len(out) + 1
+            if call == "readwin":
+                for L in seqlens:
+                    W = rng.choice([1000000, 256, 255, 257, 128, max(1, L), L + 1])
+                    ops += ["readwin C=%d W=%d" % (rng.choice([0, 0, 31, 32, 33, 255, 256]), W)] * ((L + W - 1) // W + 1) + ["reuse"]
+                ops.append("readwin C=0 W=10")
+            elif call == "readblock":
+                ops += ["readblock list=%d maxres=-1 maxseq=%d init=0 long=0 ctx=0" % (rng.choice([1, 2, 8]), rng.choice([-1, 1, 2]))] * n
+            elif call == "mixed":
+                ops += [rng.choice(["read", "readinfo", "readseq"]) for _ in range(n)]
+            else:
+                ops += [call] * n
+            ops.append("close")
+        return {"name": "alloc%d" % k, "ops": ops, "sticky": 1}
+
     def mutate(self, rng, data):
         b = bytearray(data)
         if not b:
@@ -129,6 +182,8 @@ class C02(Prop):
         pool = [(d, b) for d, lst in sorted(tf.items()) if d != "misc" for _, b in lst if len(b) <= 20000]
         for c in range(260 if ctx.tier == "quick" else 6000):
             out.append(M.msa_case(rng, c, pool))
+        for c in range(120 if ctx.tier == "quick" else 3000):
+            out.append(self.alloc_case(rng, c))
         for c in range(n):
             r = rng.random()
             if c % 10 == 5:
